@@ -217,6 +217,9 @@ def u_add_function_arg(ip: Interp, th: ControlTheory):
         kw0 = mk()
         st.assume(arg_ok(p.default_t, p.annot_t, preset_store_true=(vname == "preset-store_true")))  # precondition
         letter = FIRST(name_t)
+        H = sym.str_lit("h")
+        xs = z3.Const("x!up", S)
+        st.assume(z3.ForAll([xs], UPPER(xs) != H))  # trusted string fact: an upper-cased string is never the lower-case "h"
         for s, v in ip.exec_function(st, fi, SelfV("ControlParser"), {"parameter": p, "kwargs": KwV(dict(kw0))}):
             tag = f"[{vname}]"
             if isinstance(v, Exit):
@@ -237,14 +240,17 @@ def u_add_function_arg(ip: Interp, th: ControlTheory):
                 continue
             if len(names) == 1:
                 # positional (no default) or long option only (both letters taken)
-                ip.require(s, f"{tag}post:positional-iff-no-default-else---long-name-with-dashes",
-                           z3.If(has_default, z3.And(names[0].t == dash_name(name_t), flags0.has(letter), flags0.has(UPPER(letter))), names[0].t == name_t), P)
+                ip.require(s, f"{tag}post:positional-iff-no-default-else---long-name-with-dashes(no-short-flag-only-if-none-is-free)",
+                           z3.If(has_default, z3.And(names[0].t == dash_name(name_t), z3.Or(flags0.has(letter), letter == H), flags0.has(UPPER(letter))), names[0].t == name_t), P)
                 ip.require(s, f"{tag}frame:flag-letters-unchanged", z3.ForAll([x], flags1.has(x) == flags0.has(x)), P)
             elif len(names) == 2:
-                L = z3.If(flags0.has(letter), UPPER(letter), letter)
+                L = z3.If(z3.Or(flags0.has(letter), letter == H), UPPER(letter), letter)
                 ip.require(s, f"{tag}post:option-has-a-fresh-short-flag-and-the---long-name-with-dashes",
                            z3.And(has_default, names[1].t == dash_name(name_t), names[0].t == short_flag(L), z3.Not(flags0.has(L))), P)
                 ip.require(s, f"{tag}post:the-short-flag-letter-is-now-taken(and-nothing-else-changed)", z3.ForAll([x], flags1.has(x) == z3.Or(flags0.has(x), x == L)), P)
+                # every sub-parser has argparse's automatic `-h/--help`: a second `-h` makes add_argument raise ArgumentError
+                # (conflicting option string), add_class_commands fails and with it the handshake
+                ip.require(s, f"{tag}post:the-short-flag-never-collides-with-the-help-flag(-h)", z3.And(L != H, names[0].t == short_flag(L)), ("C16",))
             else:
                 ip.require(s, f"{tag}post:one-or-two-names", z3.BoolVal(False), P)
             # keyword arguments handed to argparse
